@@ -98,3 +98,64 @@ theorem alGet_alInsert (m : List (κ × ν)) (k0 k : κ) (v : ν) :
       cases alGet m k <;> rfl
 
 end Gql
+
+namespace Gql
+variable {κ ν : Type} [DecidableEq κ]
+
+def alKeys (m : List (κ × ν)) : List κ := m.map (·.1)
+
+theorem any_key_iff_mem (m : List (κ × ν)) (k : κ) :
+    m.any (fun p => decide (p.1 = k)) = true ↔ k ∈ alKeys m := by
+  simp only [alKeys, List.any_eq_true, decide_eq_true_eq, List.mem_map]
+
+theorem alKeys_alUpdate (m : List (κ × ν)) (k : κ) (dflt : ν) (f : ν → ν) :
+    alKeys (alUpdate m k dflt f) = if k ∈ alKeys m then alKeys m else alKeys m ++ [k] := by
+  unfold alUpdate
+  by_cases h : m.any (fun p => decide (p.1 = k)) = true
+  · have hk := (any_key_iff_mem m k).1 h
+    simp only [h, if_true, hk]
+    unfold alKeys
+    rw [List.map_map]
+    apply List.map_congr_left
+    intro p _
+    simp only [Function.comp]
+    split <;> simp_all
+  · have hk : k ∉ alKeys m := fun hm => h ((any_key_iff_mem m k).2 hm)
+    have h' : m.any (fun p => decide (p.1 = k)) = false := Bool.eq_false_iff.2 h
+    have hk' : k ∉ List.map (fun x => x.fst) m := hk
+    simp [h', alKeys, hk']
+
+theorem alGet_of_mem (m : List (κ × ν)) (hn : (alKeys m).Nodup) (k : κ) (v : ν) (h : (k, v) ∈ m) :
+    alGet m k = some v := by
+  induction m with
+  | nil => simp at h
+  | cons p ps ih =>
+    obtain ⟨a, w⟩ := p
+    simp only [alKeys, List.map_cons, List.nodup_cons] at hn
+    simp only [List.mem_cons, Prod.mk.injEq] at h
+    rw [alGet_cons]
+    rcases h with ⟨rfl, rfl⟩ | h
+    · simp
+    · have : a ≠ k := by
+        intro hak; subst hak
+        exact hn.1 (List.mem_map.2 ⟨(a, v), h, rfl⟩)
+      simp only [this, if_false]
+      exact ih hn.2 h
+
+theorem nodup_length_gt_one {α : Type} (l : List α) (hn : l.Nodup) :
+    1 < l.length ↔ ∃ a ∈ l, ∃ b ∈ l, a ≠ b := by
+  constructor
+  · intro h
+    match l, hn, h with
+    | a :: b :: rest, hn, _ =>
+      simp only [List.nodup_cons, List.mem_cons, not_or] at hn
+      exact ⟨a, by simp, b, by simp, hn.1.1⟩
+  · rintro ⟨a, ha, b, hb, hab⟩
+    match l, ha, hb with
+    | [], ha, _ => simp at ha
+    | [x], ha, hb =>
+      simp only [List.mem_singleton] at ha hb
+      exact absurd (ha.trans hb.symm) hab
+    | _ :: _ :: _, _, _ => simp
+
+end Gql
